@@ -161,3 +161,72 @@ Definition consulted (h : chier) (s : storage) (k : N) : list nat :=
          (ch_iter K h k).
 
 End Filtered.
+
+(* ---------- the all-versions read path: Storage::read_all_with_deletion_marker / read_all ----------
+   src/storage/core.rs: the active blob first, then `blobs.iter_possible_childs_rev(key)` -- the SAME hierarchy iterator
+   as get_latest_entry --, each blob contributing Blob::read_all_entries_with_deletion_marker(key); then, when more than
+   one blob contributed a non-empty list, the stable sort by timestamp descending and the cut after the first marker.
+
+   `ra_merge` is the tail shared with Model.read_all_dm (same text; read_all_dm_merge below: by reflexivity). *)
+Definition ra_nonempty (l : list rec) : bool := match l with [] => false | _ => true end.
+
+Definition ra_merge (per_blob : list (list rec)) : list rec :=
+  let affected := length (filter (fun l => match l with [] => false | _ => true end) per_blob) in
+  let marker := existsb (fun l => match last_del_ts l with Some _ => true | None => false end) per_blob in
+  let all := concat per_blob in
+  if (1 <? affected)%nat then
+    let sorted := sort_desc all in
+    if marker then cut_after_del sorted else sorted
+  else all.
+
+Lemma read_all_dm_merge (s : storage) (k : N) :
+  read_all_dm s k =
+  ra_merge ((match s_active s with Some b => [idx_get_all_dm (b_idx b) k] | None => [] end)
+            ++ map (fun b => idx_get_all_dm (b_idx b) k) (rev (closed_blobs s))).
+Proof. reflexivity. Qed.
+
+Section FilteredAll.
+Variable K : N.
+Variable bloom0 : option bloom.
+
+(* the lists the blobs contribute, newest blob first. `chk i b k` is the blob-level filter check (i = None: the active
+   blob, Some c: the closed blob in slot c): a blob whose check says NotContains is not opened (the active blob then
+   contributes the empty list) *)
+Definition per_blob_filtered_with (chk : option nat -> blob -> N -> bool)
+           (h : chier) (s : storage) (k : N) : list (list rec) :=
+  (match s_active s with
+   | Some b => [if chk None b k then idx_get_all_dm (b_idx b) k else []]
+   | None => []
+   end)
+  ++ flat_map (fun c => match nth_error (s_closed s) c with
+                        | Some (Some b) => if chk (Some c) b k then [idx_get_all_dm (b_idx b) k] else []
+                        | _ => []
+                        end) (rev (ch_iter K h k)).
+
+Definition read_all_dm_filtered_with (chk : option nat -> blob -> N -> bool)
+           (h : chier) (s : storage) (k : N) : list rec :=
+  ra_merge (per_blob_filtered_with chk h s k).
+
+(* every blob the iterator yields is asked through the filter built from its records (as get_latest_entry_filtered) *)
+Definition read_all_dm_filtered (h : chier) (s : storage) (k : N) : list rec :=
+  read_all_dm_filtered_with (fun _ b k => blob_check K bloom0 b k) h s k.
+Definition read_all_filtered (h : chier) (s : storage) (k : N) : list rec :=
+  strip_last_del (read_all_dm_filtered h s k).
+
+(* variant: closed blobs asked through the filter the hierarchy holds for their slot *)
+Definition read_all_dm_filtered_slot (h : chier) (s : storage) (k : N) : list rec :=
+  read_all_dm_filtered_with (slot_check K bloom0 h) h s k.
+
+(* variant, the Rust text to the letter: Blob::read_all_entries_with_deletion_marker goes straight to
+   index.get_all_with_deletion_marker and does NOT ask the blob's own filter (unlike Blob::get_latest_entry(.., true));
+   the hierarchy iterator is the only filtering on this path *)
+Definition read_all_dm_iter (h : chier) (s : storage) (k : N) : list rec :=
+  read_all_dm_filtered_with (fun _ _ _ => true) h s k.
+Definition read_all_iter (h : chier) (s : storage) (k : N) : list rec :=
+  strip_last_del (read_all_dm_iter h s k).
+
+(* the closed slots this path opens, in the order it opens them (newest first) *)
+Definition consulted_all (h : chier) (s : storage) (k : N) : list nat :=
+  rev (consulted K bloom0 h s k).
+
+End FilteredAll.
